@@ -517,7 +517,7 @@ void LDAPrediction(matrix *mx,
         continue;
       }
     }
-    prediction->data[i][0] = (argmax+pos);
+    prediction->data[i][0] = (double)((int)argmax-pos); /* class index -> label: labels start at class_start */
   }
 
   /* Predict the the new projection in the feature space */
